@@ -178,12 +178,32 @@ class ConfigIndependence(Contract):
                                 if logics == "QF_IDL" and (parallel or rnd):
                                     continue
                                 out.append(dict(debug=debug, parallel=parallel, rnd=rnd, logics=logics, optimizer=optimizer, obj=obj))
+        # the same on a problem with one element of every kind (buffers of both kinds accessed by an optional task,
+        # a cumulative worker, a selection, indicators, a workload, a logical combination): one option at a time
+        base = dict(debug=False, parallel=False, rnd=False, logics=None, optimizer="incremental", obj=False, rich=True)
+        for change in (dict(parallel=True), dict(rnd=True), dict(debug=True), dict(logics="QF_LIA"), dict(logics="QF_UFLIA"), dict(optimizer="optimize", obj=True), dict(parallel=True, logics="QF_LIA", obj=True)):
+            out.append(dict(base, **change))
         return out
 
     def scenario(self, ps, P, case):
         pb, t1, t2 = small_problem(ps, P)
         ps.TaskPrecedence(task_before=t1, task_after=t2, offset=P.int("off") if False else 0)
         ps.TaskStartAfter(task=t1, value=P.int("v"))
+        if case.get("rich"):
+            w = pb.workers["w"]
+            t3 = ps.FixedDurationTask(name="t3", duration=2, optional=True)
+            cw = ps.CumulativeWorker(name="cw", size=2)
+            t3.add_required_resource(cw)
+            t3.add_required_resource(ps.SelectWorkers(list_of_workers=[w, ps.Worker(name="w2")], nb_workers_to_select=1))
+            cb = ps.ConcurrentBuffer(name="cb", initial_level=P.int("cb0"), lower_bound=0)
+            nb = ps.NonConcurrentBuffer(name="nb", initial_level=P.int("nb0"))
+            ps.TaskUnloadBuffer(task=t3, buffer=cb, quantity=2)
+            ps.TaskLoadBuffer(task=t1, buffer=cb, quantity=1)
+            ps.TaskUnloadBuffer(task=t2, buffer=nb, quantity=1)
+            ps.IndicatorResourceUtilization(resource=w)
+            ps.IndicatorNumberTasksAssigned(resource=w)
+            ps.WorkLoad(resource=w, dict_time_intervals_and_bound={(0, 4): 3})
+            ps.Or(list_of_constraints=[ps.TaskStartAt(task=t3, value=1), ps.TaskEndBefore(task=t1, value=P.int("u"))])
         if case["obj"]:
             ps.ObjectiveMinimizeMakespan()
         ref = ps.SchedulingSolver(problem=pb)
@@ -201,7 +221,22 @@ class ConfigIndependence(Contract):
         ref, cfg = ctx["ref"], ctx["cfg"]
         out = []
         A_ref, A_cfg = asserted(ref), asserted(cfg)
-        out.append(Clause("independence[the asserted set does not depend on the configuration]", And(*A_cfg) == And(*A_ref), props=("C15", "C19"), kind="equals"))
+        # the very same formulas (in any order) is the usual case and needs no solver; otherwise logical equivalence
+        same_formulas = sorted(f.get_id() for f in A_cfg) == sorted(f.get_id() for f in A_ref)
+        goal = z3.BoolVal(True)
+        if not same_formulas:
+            # each initialize() draws its own fresh auxiliary constants (sorted copies ...): compared up to their renaming,
+            # formula by formula first, as conjunctions otherwise
+            from psvc.runner import equivalent_modulo_fresh, _consts_in_order
+
+            ok, why = equivalent_modulo_fresh(A_cfg, A_ref)
+            if ok is not True:
+                cc, cr = _consts_in_order(A_cfg), _consts_in_order(A_ref)
+                nr, nc = {c.decl().name() for c in cr}, {c.decl().name() for c in cc}
+                oc, orf = [c for c in cc if c.decl().name() not in nr], [c for c in cr if c.decl().name() not in nc]
+                subs = [(a, b) for a, b in zip(oc, orf) if a.sort() == b.sort()] if len(oc) == len(orf) else []
+                goal = And(*[z3.substitute(f, *subs) if subs else f for f in A_cfg]) == And(*A_ref)
+        out.append(Clause("independence[the asserted set does not depend on the configuration]", goal, props=("C15", "C19"), kind="equals"))
         G = cfg._solver
         kind = type(G).__name__
         want_opt = case["obj"] and case["optimizer"] == "optimize"
